@@ -19,6 +19,9 @@
       flows interpolate `{…}`), and is examined end-to-end with the hostile corpus.
 -/
 import NemoVerif.Lemmas.LlmText
+import NemoVerif.Lemmas.LlmGen
+import NemoVerif.Lemmas.DataflowIR
+import NemoVerif.Generated.C17Dataflow
 
 namespace NemoVerif.C17
 open NemoVerif.Py NemoVerif.Py.Str NemoVerif.LlmText
@@ -213,5 +216,175 @@ theorem turn_reply_wellformed (render : Str → Str) (bms : List (Str × List St
     · simp [Reply.text, internalErrorText, lit]
     · rename_i o ho
       exact generateBotMessage_text_ne_nil render bms ctx bi pick _ o ho
+
+/-! ## Phase 2 — multi-step generation (generate_next_step + repaired _process_start_flow + generate_events guard)
+
+The two Colang parsers are oracles (`parsesTop`: the completion prefix parses as a top-level file; `parsesFlow`: the wrapped
+`define flow <id>:` source parses into exactly one flow with that id), `nextSteps` is the opaque `compute_next_steps`. -/
+
+/-- **multistep_total**: for every completion, every pair of parser oracles and every next-step function, the events that
+    the multi-step path appends are a non-empty list (so `next_events[-1]` is defined) of one of three shapes:
+    the `general response` fallback; or `start_flow body` with `body` accepted by the top-level parse, followed by the
+    fallback / a `Listen` / the (non-empty) next steps of the started flow. -/
+theorem multistep_total (parsesTop parsesFlow : Str → Bool) (nextSteps : Str → List Ev) (p : Parser) (flowId out : Str) :
+    multiStep parsesTop parsesFlow nextSteps p flowId out = [.botIntent generalResponse] ∨
+    ∃ body rest, multiStep parsesTop parsesFlow nextSteps p flowId out = .startFlow body :: rest ∧ parsesTop body = true ∧ rest ≠ [] ∧
+      (rest = [.botIntent generalResponse] ∧ parsesFlow (dynamicFlowSource flowId body) = false ∨
+       rest = [.listen] ∧ nextSteps (dynamicFlowSource flowId body) = [] ∨
+       rest = nextSteps (dynamicFlowSource flowId body) ∧ parsesFlow (dynamicFlowSource flowId body) = true) := by
+  unfold multiStep
+  rcases multiStepNextStep_cases parsesTop p out with h | ⟨body, h, hp⟩
+  · left; rw [h]
+  · right
+    rw [h]
+    refine ⟨body, _, rfl, hp, orListen_ne_nil _, ?_⟩
+    unfold processStartFlow
+    simp only
+    by_cases hf : parsesFlow (dynamicFlowSource flowId body) = true
+    · rw [if_pos hf]
+      rcases orListen_cases (nextSteps (dynamicFlowSource flowId body)) with ⟨h1, h2⟩ | ⟨_, h2⟩
+      · exact Or.inr (Or.inl ⟨h2, h1⟩)
+      · exact Or.inr (Or.inr ⟨h2, hf⟩)
+    · rw [if_neg hf]
+      left
+      exact ⟨by simp [orListen], by simpa using hf⟩
+
+example : multiStep (fun _ => true) (fun _ => false) (fun _ => []) .none (lit "id") (lit "bot x") =
+    [.startFlow (lit "bot x"), .botIntent generalResponse] := by decide
+
+/-- the flow body that is started is the LONGEST prefix of the completion's lines that parses … -/
+theorem multistep_body_is_longest_parsing_prefix (parsesTop : Str → Bool) (p : Parser) (out body : Str)
+    (h : multiStepNextStep parsesTop p out = .startFlow body) :
+    ∃ k, 1 ≤ k ∧ k ≤ (splitOn '\n' (p.apply out)).length ∧ body = join ['\n'] ((splitOn '\n' (p.apply out)).take k) ∧
+      ∀ j, k < j → j ≤ (splitOn '\n' (p.apply out)).length → parsesTop (join ['\n'] ((splitOn '\n' (p.apply out)).take j)) = false := by
+  unfold multiStepNextStep at h
+  simp only at h
+  cases hs : shrink parsesTop (splitOn '\n' (p.apply out)) (splitOn '\n' (p.apply out)).length with
+  | none => rw [hs] at h; cases h
+  | some b =>
+    rw [hs] at h
+    cases h
+    exact (shrink_some _ _ _ _ hs).2
+
+/-- … and the fallback is taken only when no non-empty prefix parses. -/
+theorem multistep_fallback_only_if_nothing_parses (parsesTop : Str → Bool) (p : Parser) (out : Str)
+    (h : ∀ body, multiStepNextStep parsesTop p out ≠ .startFlow body) :
+    ∀ j, 1 ≤ j → j ≤ (splitOn '\n' (p.apply out)).length → parsesTop (join ['\n'] ((splitOn '\n' (p.apply out)).take j)) = false := by
+  unfold multiStepNextStep at h
+  simp only at h
+  cases hs : shrink parsesTop (splitOn '\n' (p.apply out)) (splitOn '\n' (p.apply out)).length with
+  | none => exact shrink_none _ _ _ hs
+  | some b => rw [hs] at h; exact absurd rfl (h b)
+
+/-! ## Phase 2 — single-call mode in full -/
+
+/-- whatever the single completion (and the optional second one) is, a single-call turn ends with a non-empty bot message or
+    the internal-error reply; this includes the empty completion (TypeError), the empty predicted intent (IndexError) and a
+    message that imitates the streaming marker (KeyError) -/
+theorem singleCall_turn_wellformed (render : Str → Str) (bms : List (Str × List Str)) (ctx : List (Str × CtxVal))
+    (p p3 : Parser) (pick : Nat) (chosen : Option Str) (out out2 : Str) :
+    (singleCallTurn render bms ctx p p3 pick chosen out out2).text ≠ [] := by
+  unfold singleCallTurn
+  cases hsc : postSingleCall p out with
+  | error e => simp [Reply.text, internalErrorText, lit]
+  | ok r =>
+    simp only
+    have hne : p.apply out ≠ [] := by
+      intro hn
+      rw [singleCall_empty p out hn] at hsc
+      cases hsc
+    obtain ⟨r', hr', _, _, hbm⟩ := singleCall_fields p out hne
+    rw [hsc] at hr'
+    cases hr'
+    unfold dispatch
+    split
+    · simp [Reply.text, internalErrorText, lit]
+    · rename_i o ho
+      exact generateBotMessageSC_text_ne_nil _ _ _ _ _ _ _ hbm _ o ho
+
+/-- a pre-computed message that starts with the streaming marker raises KeyError inside the action when no streaming
+    handler is registered (contained) -/
+theorem singleCall_streaming_marker_contained (render : Str → Str) (bms : List (Str × List Str)) (ctx : List (Str × CtxVal))
+    (bi bm : Str) (pick : Nat) (t : Except PyErr Str)
+    (hreach : reachesLlmBranch bms ctx bi = .ok true) (hm : startsWith bm streamingPrefix = true) :
+    generateBotMessageSC render bms ctx bi pick (some (bi, bm)) t = .error .keyError := by
+  unfold generateBotMessageSC
+  rw [hreach]
+  simp [hm]
+
+/-- only predefined messages are rendered — also on the single-call path -/
+theorem only_predefined_rendered_sc (render : Str → Str) (bms : List (Str × List Str)) (ctx : List (Str × CtxVal))
+    (bi : Str) (pick : Nat) (sc : Option (Str × Str)) (t : Except PyErr Str) (o : BotMsgOut)
+    (h : generateBotMessageSC render bms ctx bi pick sc t = .ok o) :
+    ∀ r ∈ o.rendered, ∃ msgs, (bi, msgs) ∈ bms ∧ r ∈ msgs :=
+  generateBotMessageSC_rendered render bms ctx bi pick sc t o h
+
+/-! ## Phase 2 — Colang 2.x flow / value generation bodies never raise -/
+
+theorem flowFromInstructions_total (flowName result : Str) : ∃ o, flowFromInstructions flowName result = .ok o :=
+  flowFromInstructions_ok flowName result
+
+theorem flowFromName_total (name result : Str) : ∃ o, flowFromName name result = .ok o ∧ startsWith o (lit "flow ") = true :=
+  flowFromName_ok name result
+
+theorem flowContinuation_total (escape : Str → Str) (uuid result : Str) : ∃ o, flowContinuation escape uuid result = .ok o :=
+  flowContinuation_ok escape uuid result
+
+theorem flowFromNld_total (p : Parser) (uuid out : Str) : ∃ o, flowFromNld p uuid out = .ok o := flowFromNld_ok p uuid out
+
+/-- every body line produced by `generate_flow` is indented (the generated text stays inside the flow) -/
+theorem flowFromNld_lines_indented (l : Str) : startsWith (indentLine l) (lit "  ") = true := indentLine_starts l
+
+theorem postValueV2_total (p : Parser) (lastPromptLine out : Str) : ∃ v, postValueV2 p lastPromptLine out = .ok v :=
+  postValueV2_ok p lastPromptLine out
+
+/-! ## Phase 2 — the dataflow theorem over GENERATED data
+
+`Generated/C17Dataflow.lean` is the IR of every function of generation.py (1.0), generation.py (2.x) and taskmanager.py that
+contains a template sink, rewritten from the working tree before every build. -/
+
+open NemoVerif.DataflowIR in
+/-- (finite fact about generated data, kernel evaluation) the abstract interpreter is conclusive on every generated function
+    and reports no sink whose template expression may carry LLM text -/
+theorem generated_sinks_checked :
+    NemoVerif.Generated.C17Dataflow.funcs.all (fun f => safe .llm f.prog f.initLlm) = true := by decide +kernel
+
+open NemoVerif.DataflowIR in
+/-- **llm_text_not_rendered (IR)**: in every function of the three modules, on EVERY run (any branch choices, any loop counts)
+    started with LLM text at most in `events` / the 2.x `state`, no template sink (`_render_string`, `from_string`, `Template`,
+    `render_task_prompt(task=…)`) receives a template expression that may carry LLM text. -/
+theorem llm_text_not_rendered_ir :
+    ∀ f ∈ NemoVerif.Generated.C17Dataflow.funcs, ∀ (e e' : Env) (l : List (Nat × Bool)),
+      Run .llm f.prog e e' l → Abstracts e f.initLlm → ∀ s ∈ l, s.2 = false := by
+  intro f hf e e' l hrun hinit
+  have h := List.all_eq_true.1 generated_sinks_checked f hf
+  exact safe_sound .llm f.prog f.initLlm (by simpa using h) e e' l hrun hinit
+
+open NemoVerif.DataflowIR in
+/-- non-vacuity: the analysis does flag the mutant "render what the LLM returned" and that sink is reachable in the semantics -/
+example : safe .llm (.seq (.assign 0 [] [.llm]) (.ite (.render 0 [1] [.config]) (.render 1 [0] []))) [] = false := by decide
+
+open NemoVerif.DataflowIR in
+example : ∃ e' l, Run .llm (.seq (.assign 0 [] [.llm]) (.render 1 [0] [])) (fun _ => false) e' l ∧ (1, true) ∈ l :=
+  ⟨_, _, .seq (.assign _ 0 [] [.llm]) (.render _ 1 [0] []), by simp [carries, Env.set]⟩
+
+/-! ## Witnesses for the parts of the second sentence of C17 that are NOT claimed (open findings, by design)
+
+"Template and variable syntax inside LLM-produced message text is passed through literally, never evaluated" is claimed for the
+Colang 1.0 message paths (theorems above + end-to-end sentinel).  It is not claimed where the product treats LLM output as a
+*reference* or as *code*: -/
+
+/-- (1.0) an LLM-predicted bot intent `$name` is answered with the value of the context variable — for every value. -/
+theorem llm_bot_intent_dereferences_context (render : Str → Str) (v : Str) (t : Except PyErr Str) :
+    generateBotMessage render [] [(lit "secret", .str v)] (lit "$secret") 0 t =
+      .ok { rendered := [], text := finishBotMessage v, src := .contextVar } := by
+  simp [generateBotMessage, lookup, idx0, lit]
+
+/-- (2.x) the LLM's `bot action:` line is copied verbatim into the SOURCE of a flow that `AddFlowsAction` then parses and
+    runs: interpolation syntax written by the LLM is code there (kernel-evaluated witness). -/
+theorem v2_generated_flow_embeds_llm_text_as_code :
+    (match flowContinuation id (lit "u") (lit "bot action: bot say \"{191*7}\"") with
+      | .ok o => endsWith o.body (lit "\n  bot say \"{191*7}\"") && startsWith o.name (lit "_dynamic_u ")
+      | .error _ => false) = true := by decide +kernel
 
 end NemoVerif.C17
